@@ -318,6 +318,9 @@ def register() -> None:
         from semantiva.execution.component_registry import ExecutionComponentRegistry
         from .executor import RecordingExecutor
 
+        from .executor import SvOrchestrator
+
         ExecutionComponentRegistry.register_executor("SvRecordingExecutor", RecordingExecutor)
+        ExecutionComponentRegistry.register_orchestrator("SvOrchestrator", SvOrchestrator)
     except Exception:  # pragma: no cover
         raise
